@@ -639,7 +639,7 @@ theorem handle_renet {r : ServerResult} {rs rs' : Server} {out out' : Array Dgra
       obtain ⟨rs1, ok⟩ := x
       rw [hp] at h
       simp only [Res.bind_ok, Res.pure_eq, Res.ok.injEq, Prod.mk.injEq] at h
-      exact ⟨ok, by rw [h.1]⟩
+      exact ⟨ok, by rw [← h.1]; exact hp⟩
     | err e => exact e.elim
     | panic m => rw [hp] at h; cases h
   | clientConnected id addr ud p => cases h; rfl
@@ -731,5 +731,335 @@ theorem lockStep_handle {g : ServerGlue} {ns' : NetcodeServer} {r : ServerResult
     LockStep { netcode := ns', renet := rs' } ∧ rs'.events = g.renet.events ++ evOf g.renet r := by
   obtain ⟨h1, h2, h3, h4⟩ := handle_sync ht hl.nodup hl.sorted hl.sync h
   exact ⟨⟨h1, h2, h3⟩, h4⟩
+
+/-! ## Part 3 : the loops -/
+
+/-- the common shape of the three loops of `update` and of `disconnect_all`:
+    `for x in l { handle_server_result(f(netcode, x)) }` -/
+def handleLoop {α : Type} (f : NetcodeServer → α → Res Empty (ServerResult × NetcodeServer)) (g : ServerGlue) :
+    List α → Array Dgram → Res Empty (ServerGlue × Array Dgram)
+  | [], out => pure (g, out)
+  | x :: rest, out => do
+    let (r, ns) ← f g.netcode x
+    let (rs, out) ← handleServerResult r g.renet out
+    handleLoop f { netcode := ns, renet := rs } rest out
+
+theorem idLoop_eq (f : NetcodeServer → Nat → Res Empty (ServerResult × NetcodeServer)) :
+    ∀ (l : List Nat) (g : ServerGlue) (out : Array Dgram), serverIdLoop f g l out = handleLoop f g l out
+  | [], g, out => rfl
+  | id :: rest, g, out => by
+    simp only [serverIdLoop, handleLoop, idLoop_eq f rest]
+
+theorem recvLoop_eq (a : AEAD) :
+    ∀ (l : List Dgram) (g : ServerGlue) (out : Array Dgram),
+      serverRecvLoop a g l out = handleLoop (fun ns d => ns.processPacket a d.1 d.2) g l out
+  | [], g, out => rfl
+  | (addr, buf) :: rest, g, out => by
+    simp only [serverRecvLoop, handleLoop, recvLoop_eq a rest]
+
+/-- the netcode half of a loop on its own: the results it returns, in order, and the final netcode state.
+    (The netcode state never depends on renet.) -/
+def ncTrace {α : Type} (f : NetcodeServer → α → Res Empty (ServerResult × NetcodeServer)) (ns : NetcodeServer) :
+    List α → Res Empty (List ServerResult × NetcodeServer)
+  | [] => pure ([], ns)
+  | x :: rest => do
+    let (r, ns1) ← f ns x
+    let (tr, ns2) ← ncTrace f ns1 rest
+    pure (r :: tr, ns2)
+
+theorem runSrv_append : ∀ (l1 l2 : List SL.SrvOp) (st st1 st2 : SL.SrvState), SL.runSrv st l1 = .ok st1 →
+    SL.runSrv st1 l2 = .ok st2 → SL.runSrv st (l1 ++ l2) = .ok st2
+  | [], l2, st, st1, st2, h1, h2 => by cases h1; exact h2
+  | op :: l1, l2, st, st1, st2, h1, h2 => by
+    simp only [List.cons_append, SL.runSrv] at h1 ⊢
+    split at h1
+    · rename_i st' hop
+      exact runSrv_append l1 l2 st' st1 st2 h1 h2
+    · cases h1
+    · cases h1
+
+/-- one iteration of a loop, taken apart -/
+theorem handleLoop_cons {α : Type} {f : NetcodeServer → α → Res Empty (ServerResult × NetcodeServer)}
+    {g g' : ServerGlue} {x : α} {rest : List α} {out out' : Array Dgram}
+    (h : handleLoop f g (x :: rest) out = .ok (g', out')) :
+    ∃ r ns rs out1, f g.netcode x = .ok (r, ns) ∧ handleServerResult r g.renet out = .ok (rs, out1) ∧
+      handleLoop f { netcode := ns, renet := rs } rest out1 = .ok (g', out') := by
+  simp only [handleLoop] at h
+  obtain ⟨⟨r, ns⟩, h1, h2⟩ := CI.bind_ok_cases h
+  obtain ⟨⟨rs, out1⟩, h3, h4⟩ := CI.bind_ok_cases h2
+  exact ⟨r, ns, rs, out1, h1, h3, h4⟩
+
+/-- **factorisation of a loop**: the netcode results `tr` are those of the netcode calls alone; renet receives exactly the
+    calls `opOf` of these results, in order; the datagrams sent are exactly `dgOf` of these results, in order -/
+theorem handleLoop_factor {α : Type} (f : NetcodeServer → α → Res Empty (ServerResult × NetcodeServer))
+    (popped : List Event) :
+    ∀ (l : List α) (g g' : ServerGlue) (out out' : Array Dgram), handleLoop f g l out = .ok (g', out') →
+    ∃ tr, ncTrace f g.netcode l = .ok (tr, g'.netcode) ∧
+      SL.runSrv (g.renet, popped) (tr.flatMap opOf) = .ok (g'.renet, popped) ∧
+      out'.toList = out.toList ++ tr.flatMap dgOf
+  | [], g, g', out, out', h => by
+    cases h
+    exact ⟨[], rfl, rfl, by simp⟩
+  | x :: rest, g, g', out, out', h => by
+    obtain ⟨r, ns, rs, out1, h1, h2, h3⟩ := handleLoop_cons h
+    obtain ⟨tr, t1, t2, t3⟩ := handleLoop_factor f popped rest _ g' out1 out' h3
+    obtain ⟨f1, f2⟩ := handle_factor h2 popped
+    refine ⟨r :: tr, ?_, ?_, ?_⟩
+    · simp only [ncTrace, h1, Res.bind_ok]
+      rw [t1]; rfl
+    · rw [List.flatMap_cons]
+      exact runSrv_append _ _ _ _ _ f1 t2
+    · rw [t3, f2, List.flatMap_cons, List.append_assoc]
+
+/-- a loop whose netcode call obeys `TStep` keeps lock-step, and the renet events it pushes are, in order,
+    the connect / disconnect results of the netcode calls, with the same ids -/
+theorem handleLoop_lockstep {α : Type} {f : NetcodeServer → α → Res Empty (ServerResult × NetcodeServer)}
+    (hf : ∀ ns x r ns', f ns x = .ok (r, ns') → TStep ns.clients ns'.clients r) :
+    ∀ (l : List α) (g g' : ServerGlue) (out out' : Array Dgram) (tr : List ServerResult),
+    handleLoop f g l out = .ok (g', out') → ncTrace f g.netcode l = .ok (tr, g'.netcode) → LockStep g →
+    LockStep g' ∧ ∃ new, g'.renet.events = g.renet.events ++ new ∧ new.map evKey = tr.filterMap resKey
+  | [], g, g', out, out', tr, h, ht, hl => by
+    cases h
+    cases ht
+    exact ⟨hl, [], by simp, rfl⟩
+  | x :: rest, g, g', out, out', tr, h, ht, hl => by
+    obtain ⟨r, ns, rs, out1, h1, h2, h3⟩ := handleLoop_cons h
+    simp only [ncTrace, h1, Res.bind_ok] at ht
+    obtain ⟨⟨tr1, ns2⟩, t1, t2⟩ := CI.bind_ok_cases ht
+    simp only [Res.pure_eq, Res.ok.injEq, Prod.mk.injEq] at t2
+    obtain ⟨t2, t3⟩ := t2
+    subst t2; subst t3
+    obtain ⟨hl1, he1⟩ := lockStep_handle hl (hf _ _ _ _ h1) h2
+    obtain ⟨hl2, new, he2, hk⟩ := handleLoop_lockstep hf rest _ g' out1 out' tr1 h3 t1 hl1
+    refine ⟨hl2, evOf g.renet r ++ new, ?_, ?_⟩
+    · rw [he2]
+      show rs.events ++ new = _
+      rw [he1, List.append_assoc]
+    · rw [List.map_append, evOf_key, hk, List.filterMap_cons]
+      cases resKey r <;> rfl
+
+abbrev ppF (a : AEAD) : NetcodeServer → Dgram → Res Empty (ServerResult × NetcodeServer) :=
+  fun ns d => ns.processPacket a d.1 d.2
+abbrev ucF (a : AEAD) : NetcodeServer → Nat → Res Empty (ServerResult × NetcodeServer) :=
+  fun ns id => ns.updateClient a id
+abbrev dcF (a : AEAD) : NetcodeServer → Nat → Res Empty (ServerResult × NetcodeServer) :=
+  fun ns id => ns.disconnect a id
+
+theorem ppF_tstep (a : AEAD) : ∀ ns x r ns', ppF a ns x = .ok (r, ns') → TStep ns.clients ns'.clients r :=
+  fun _ _ _ _ h => processPacket_tstep h
+theorem ucF_tstep (a : AEAD) : ∀ ns x r ns', ucF a ns x = .ok (r, ns') → TStep ns.clients ns'.clients r :=
+  fun _ _ _ _ h => updateClient_tstep h
+theorem dcF_tstep (a : AEAD) : ∀ ns x r ns', dcF a ns x = .ok (r, ns') → TStep ns.clients ns'.clients r :=
+  fun _ _ _ _ h => (disconnect_spec h).1
+
+theorem handleLoop_lockstep' {α : Type} {f : NetcodeServer → α → Res Empty (ServerResult × NetcodeServer)}
+    (hf : ∀ ns x r ns', f ns x = .ok (r, ns') → TStep ns.clients ns'.clients r)
+    {l : List α} {g g' : ServerGlue} {out out' : Array Dgram}
+    (h : handleLoop f g l out = .ok (g', out')) (hl : LockStep g) : LockStep g' := by
+  obtain ⟨tr, t1, _, _⟩ := handleLoop_factor f [] l g g' out out' h
+  exact (handleLoop_lockstep hf l g g' out out' tr h t1 hl).1
+
+theorem removeConnection_find_self (rs : Server) (hs : SL.SMap.Sorted rs.conns) (id : Nat) :
+    SMap.find? (rs.removeConnection id).conns id = none := by
+  unfold Server.removeConnection
+  cases hf : SMap.find? rs.conns id with
+  | none => exact hf
+  | some c => exact SL.SMap.find?_erase_self _ _ hs
+
+/-- the loop `for id in l { handle(netcode.disconnect(id)) }` under lock-step: every id of `l` is gone from
+    renet afterwards, every other connection is untouched -/
+theorem disconnectLoop_spec (a : AEAD) :
+    ∀ (l : List Nat) (g g' : ServerGlue) (out out' : Array Dgram),
+    handleLoop (dcF a) g l out = .ok (g', out') → LockStep g →
+    (∀ j, j ∈ l → SMap.find? g'.renet.conns j = none) ∧
+    (∀ j, j ∉ l → SMap.find? g'.renet.conns j = SMap.find? g.renet.conns j)
+  | [], g, g', out, out', h, hl => by
+    cases h
+    exact ⟨fun j hj => by cases hj, fun j _ => rfl⟩
+  | id :: rest, g, g', out, out', h, hl => by
+    obtain ⟨r, ns, rs, out1, h1, h2, h3⟩ := handleLoop_cons h
+    obtain ⟨ht, hin, hout⟩ := disconnect_spec h1
+    obtain ⟨hl1, _⟩ := lockStep_handle hl ht h2
+    obtain ⟨ih1, ih2⟩ := disconnectLoop_spec a rest _ g' out1 out' h3 hl1
+    have hr := handle_renet h2
+    have hself : SMap.find? rs.conns id = none := by
+      by_cases hm : id ∈ ids g.netcode.clients
+      · obtain ⟨ad, p, e⟩ := hin hm
+        subst e
+        simp only at hr
+        rw [hr]
+        exact removeConnection_find_self _ hl.sorted id
+      · obtain ⟨e1, e2⟩ := hout hm
+        subst e1
+        simp only at hr
+        rw [hr]
+        cases hc : SMap.find? g.renet.conns id with
+        | none => rfl
+        | some c => exact absurd ((hl.sync id).mp (contains_of_find hc)) hm
+    have hother : ∀ j, j ≠ id → SMap.find? rs.conns j = SMap.find? g.renet.conns j := by
+      intro j hj
+      by_cases hm : id ∈ ids g.netcode.clients
+      · obtain ⟨ad, p, e⟩ := hin hm
+        subst e
+        simp only at hr
+        rw [hr]
+        exact SL.removeConnection_frame _ _ _ hj
+      · obtain ⟨e1, e2⟩ := hout hm
+        subst e1
+        simp only at hr
+        rw [hr]
+    refine ⟨fun j hj => ?_, fun j hj => ?_⟩
+    · by_cases hjr : j ∈ rest
+      · exact ih1 j hjr
+      · have : j = id := by
+          rcases List.mem_cons.mp hj with e | e
+          · exact e
+          · exact absurd e hjr
+        subst this
+        rw [ih2 j hjr]; exact hself
+    · have hne : j ≠ id := fun e => hj (e ▸ List.mem_cons_self)
+      have hjr : j ∉ rest := fun e => hj (List.mem_cons_of_mem _ e)
+      rw [ih2 j hjr]; exact hother j hne
+
+theorem mem_disconnectionsId {rs : Server} {j : Nat} {c : Conn} (hf : SMap.find? rs.conns j = some c)
+    (hd : c.isDisconnected = true) : j ∈ rs.disconnectionsId := by
+  unfold Server.disconnectionsId
+  exact List.mem_map.mpr ⟨(j, c), List.mem_filter.mpr ⟨SMap.mem_of_find? hf, hd⟩, rfl⟩
+
+theorem contains_of_mem_clientsId {rs : Server} {j : Nat} (h : j ∈ rs.clientsId) : SMap.contains rs.conns j = true := by
+  unfold Server.clientsId at h
+  obtain ⟨x, hx, rfl⟩ := List.mem_map.mp h
+  have hk : x.1 ∈ SMap.keys rs.conns := List.mem_map.mpr ⟨x, (List.mem_filter.mp hx).1, rfl⟩
+  rw [SL.SMap.contains_iff]
+  intro hn
+  exact (SL.SMap.find?_eq_none_iff _ _).mp hn hk
+
+/-- `NetcodeServerTransport::update`, taken apart into its four stages -/
+theorem serverUpdate_unfold {a : AEAD} {g g' : ServerGlue} {d : Nat} {inbox : List Dgram} {out : Array Dgram}
+    (h : serverUpdate a g d inbox = .ok (g', out)) :
+    ∃ ns0 g1 out1 g2 out2, g.netcode.update d = .ok ns0 ∧
+      handleLoop (ppF a) { g with netcode := ns0 } inbox #[] = .ok (g1, out1) ∧
+      handleLoop (ucF a) g1 g1.netcode.clientsId out1 = .ok (g2, out2) ∧
+      handleLoop (dcF a) g2 g2.renet.disconnectionsId out2 = .ok (g', out) := by
+  unfold serverUpdate at h
+  obtain ⟨ns0, h0, h⟩ := CI.bind_ok_cases h
+  obtain ⟨⟨g1, out1⟩, h1, h⟩ := CI.bind_ok_cases h
+  obtain ⟨⟨g2, out2⟩, h2, h3⟩ := CI.bind_ok_cases h
+  rw [recvLoop_eq] at h1
+  rw [idLoop_eq] at h2 h3
+  exact ⟨ns0, g1, out1, g2, out2, h0, h1, h2, h3⟩
+
+/-- **(b)** `update` keeps lock-step and leaves no disconnected connection in the renet table: a disconnect decided
+    by the message layer (an error on a channel, `RenetServer::disconnect`) ends the netcode session and removes the
+    connection within this one `update` -/
+theorem serverUpdate_lockstep {a : AEAD} {g g' : ServerGlue} {d : Nat} {inbox : List Dgram} {out : Array Dgram}
+    (h : serverUpdate a g d inbox = .ok (g', out)) (hl : LockStep g) : LockStep g' ∧ NoDead g'.renet := by
+  obtain ⟨ns0, g1, out1, g2, out2, h0, h1, h2, h3⟩ := serverUpdate_unfold h
+  have hl0 : LockStep { g with netcode := ns0 } := by
+    refine ⟨?_, hl.sorted, ?_⟩
+    · show (ids ns0.clients).Nodup
+      rw [update_clients h0]; exact hl.nodup
+    · intro id
+      show _ ↔ id ∈ ids ns0.clients
+      rw [update_clients h0]; exact hl.sync id
+  have hl1 := handleLoop_lockstep' (ppF_tstep a) h1 hl0
+  have hl2 := handleLoop_lockstep' (ucF_tstep a) h2 hl1
+  have hl3 := handleLoop_lockstep' (dcF_tstep a) h3 hl2
+  obtain ⟨d1, d2⟩ := disconnectLoop_spec a _ g2 g' out2 out h3 hl2
+  refine ⟨hl3, fun j c hf => ?_⟩
+  cases hd : c.isDisconnected with
+  | false => rfl
+  | true =>
+    by_cases hj : j ∈ g2.renet.disconnectionsId
+    · rw [d1 j hj] at hf; cases hf
+    · rw [d2 j hj] at hf
+      exact absurd (mem_disconnectionsId hf hd) hj
+
+/-! #### `send_packets` -/
+
+theorem sendClient_ids (a : AEAD) (id : Nat) : ∀ (ps : List Bytes) (ns ns' : NetcodeServer) (out out' : Array Dgram),
+    serverSendClient a ns id ps out = .ok (ns', out') → ids ns'.clients = ids ns.clients
+  | [], ns, ns', out, out', h => by cases h; rfl
+  | p :: rest, ns, ns', out, out', h => by
+    simp only [serverSendClient] at h
+    split at h
+    · cases h
+    · cases h; rfl
+    · rename_i addr dg ns1 hg
+      rw [sendClient_ids a id rest ns1 ns' _ out' h]
+      exact (generatePayloadPacket_ids hg).1
+
+theorem sendLoop_cons {a : AEAD} {g g' : ServerGlue} {id : Nat} {rest : List Nat} {out out' : Array Dgram}
+    (h : serverSendLoop a g (id :: rest) out = .ok (g', out')) :
+    ∃ rs ps ns out1, g.renet.getPacketsToSend id = .ok (rs, some ps) ∧
+      serverSendClient a g.netcode id ps out = .ok (ns, out1) ∧
+      serverSendLoop a { netcode := ns, renet := rs } rest out1 = .ok (g', out') := by
+  simp only [serverSendLoop] at h
+  obtain ⟨⟨rs, ps⟩, h1, h2⟩ := CI.bind_ok_cases h
+  cases ps with
+  | none => cases h2
+  | some ps =>
+    obtain ⟨⟨ns, out1⟩, h3, h4⟩ := CI.bind_ok_cases h2
+    exact ⟨rs, ps, ns, out1, h1, h3, h4⟩
+
+/-- **(c)** `send_packets` keeps lock-step: it only replaces connections under existing keys and slot contents
+    under existing ids, and pushes no event -/
+theorem sendLoop_lockstep (a : AEAD) : ∀ (l : List Nat) (g g' : ServerGlue) (out out' : Array Dgram),
+    serverSendLoop a g l out = .ok (g', out') → LockStep g →
+    LockStep g' ∧ SL.QuietC g.renet.conns g'.renet.conns ∧ g'.renet.events = g.renet.events
+  | [], g, g', out, out', h, hl => by
+    cases h
+    exact ⟨hl, SL.QuietC.refl _, rfl⟩
+  | id :: rest, g, g', out, out', h, hl => by
+    obtain ⟨rs, ps, ns, out1, h1, h2, h3⟩ := sendLoop_cons h
+    obtain ⟨ad, q, _⟩ := SL.Server.getPacketsToSend_spec h1
+    have hi := sendClient_ids a id ps _ _ _ _ h2
+    have hl1 : LockStep { netcode := ns, renet := rs } := by
+      refine ⟨?_, q.sorted hl.sorted, fun j => ?_⟩
+      · show (ids ns.clients).Nodup
+        rw [hi]; exact hl.nodup
+      · show SMap.contains rs.conns j = true ↔ j ∈ ids ns.clients
+        rw [hi, q.contains j]; exact hl.sync j
+    obtain ⟨hl2, q2, e2⟩ := sendLoop_lockstep a rest _ g' out1 out' h3 hl1
+    exact ⟨hl2, q.trans q2, e2.trans ad.events⟩
+
+theorem serverSendPackets_lockstep {a : AEAD} {g g' : ServerGlue} {out : Array Dgram}
+    (h : serverSendPackets a g = .ok (g', out)) (hl : LockStep g) :
+    LockStep g' ∧ SL.QuietC g.renet.conns g'.renet.conns ∧ g'.renet.events = g.renet.events :=
+  sendLoop_lockstep a _ g g' _ out h hl
+
+theorem noDead_of_quiet_sorted {m m' : SMap Conn} (q : SL.QuietC m m') : True := trivial
+
+/-! #### `disconnect_all` -/
+
+theorem smap_eq_nil_of_find {α : Type} {m : SMap α} (h : ∀ j, SMap.find? m j = none) : m = [] := by
+  cases m with
+  | nil => rfl
+  | cons p r =>
+    obtain ⟨k, v⟩ := p
+    have := h k
+    simp [SMap.find?] at this
+
+/-- **(c)** `disconnect_all` keeps lock-step and empties both tables -/
+theorem serverDisconnectAll_lockstep {a : AEAD} {g g' : ServerGlue} {out : Array Dgram}
+    (h : serverDisconnectAll a g = .ok (g', out)) (hl : LockStep g) :
+    LockStep g' ∧ g'.renet.conns = [] ∧ g'.netcode.clientsId = [] := by
+  unfold serverDisconnectAll at h
+  rw [idLoop_eq] at h
+  have hl' := handleLoop_lockstep' (dcF_tstep a) h hl
+  obtain ⟨d1, d2⟩ := disconnectLoop_spec a _ g g' _ out h hl
+  have hnone : ∀ j, SMap.find? g'.renet.conns j = none := by
+    intro j
+    by_cases hj : j ∈ g.netcode.clientsId
+    · exact d1 j hj
+    · rw [d2 j hj]
+      cases hc : SMap.find? g.renet.conns j with
+      | none => rfl
+      | some c => exact absurd ((hl.sync j).mp (contains_of_find hc)) hj
+  refine ⟨hl', smap_eq_nil_of_find hnone, ?_⟩
+  apply List.eq_nil_iff_forall_not_mem.mpr
+  intro j hj
+  have := (hl'.sync j).mpr hj
+  simp [SMap.contains, hnone j] at this
 
 end RenetVerif.GI
